@@ -1,5 +1,5 @@
 SPEC = {
-    "ready": False,
+    "ready": True,
     "custom": "py_driver", "script": "c20_explore.py", "ext": "c20_ext", "engine": "py-explorer",
     "deadline": {"quick": 420, "thorough": 2400},
     # thorough: + free-running threads pass in the plain build and under ThreadSanitizer (sampling; reported separately)
